@@ -5,6 +5,7 @@ CONSTANTS
   Closers = {1, 2}
   AsIs_D8 = TRUE
   AsIs_D9 = TRUE
+  Mut_CloseSkipsDeadStream = FALSE
 SPECIFICATION TSpec
 CONSTRAINT Mark
 POSTCONDITION Post
